@@ -1335,13 +1335,13 @@ bool femm::FemmProblem::deleteSelectedNodes()
                 // first remove all lines that contain the point;
                 for (int j=0; j<(int)linelist.size(); j++)
                     if((linelist[j]->n0==i) || (linelist[j]->n1==i))
-                        linelist[j]->ToggleSelect();
+                        linelist[j]->IsSelected = true;
                 deleteSelectedSegments();
 
                 // remove all arcs that contain the point;
                 for (int j=0; j<(int)arclist.size(); j++)
                     if((arclist[j]->n0==i) || (arclist[j]->n1==i))
-                        arclist[j]->ToggleSelect();
+                        arclist[j]->IsSelected = true;
                 deleteSelectedArcSegments();
 
                 // remove node from the nodelist...
